@@ -237,6 +237,9 @@ func main() {
 		if r.Vacuity != nil {
 			jobs = append(jobs, solveJob{r, r.Vacuity})
 		}
+		for _, cv := range r.Covers {
+			jobs = append(jobs, solveJob{r, cv})
+		}
 	}
 	var wg sync.WaitGroup
 	sem := make(chan struct{}, runtime.NumCPU())
@@ -258,9 +261,14 @@ func main() {
 			defer wg.Done()
 			defer func() { <-sem }()
 			j.o.Lambda = lam
+			if j.o.Kind == "cover" || j.o.Kind == "vacuity" {
+				// expected sat; a short budget is enough (undecided is tolerated)
+				j.o.Res = Solve(script, nil, 5, lam)
+				return
+			}
 			if gscript != "" {
 				// quantifier-free approximation first: unsat is conclusive
-				gt := 15
+				gt := 30
 				if timeout > 20 {
 					gt = 60
 				}
